@@ -178,6 +178,7 @@ func genC11(driver string, col *ev.Collector) func(*rapid.T) c11Case {
 			if driver == drvMavenOverride {
 				c.MavenManagement = rapid.Bool().Draw(t, "maven_management")
 			}
+			honourRelaxBelowHighest(col, "c11", &c.Scenario)
 			honourRelaxPrerelease(col, "c11", &c.Scenario)
 			honourDepMgmtClass(col, "c11", &c.Manifest)
 			honourDirectVsRange(col, "c11", &c.Scenario)
